@@ -169,3 +169,61 @@ func HarnessC12Site(funcs bool) {
 		verifCheckf(n >= 1, "disallowed-function-not-reported", site.path+": "+base)
 	}
 }
+
+// HarnessC12Testdata: HarnessC12Site over the repository's own clean example
+// workflows (compiled in from testdata at run time): at every scalar value of
+// every such file, `${{ <context>.x }}` / `${{ <function>() }}` is reported as
+// not allowed iff the table does not list it for that position's workflow key.
+func HarnessC12Testdata(funcs bool) {
+	src := verifCorpusFiles[verifChoose("file", len(verifCorpusFiles))]
+	if len(verifLintNode(verifParseYAML(src), verifRulesNoDeprecated())) > 0 {
+		verifReach("not-clean")
+		return
+	}
+	doc, sites := verifSkeletonSitesOf(src)
+	if len(sites.scalars) == 0 {
+		return
+	}
+	site := sites.scalars[verifChoose("scalar", len(sites.scalars))]
+	if site.node.Tag == "!!null" || verifExempt(site.ctx, site.key) || site.ctx == cxOn {
+		return // not an expression template
+	}
+	row := verifTableRowFor(site.path)
+	site.node.Tag, site.node.Style = "!!str", 0
+	if !funcs {
+		base := verifAllContexts[verifChoose("context", len(verifAllContexts))]
+		site.node.Value = "${{ " + base + ".x }}"
+		errs := verifLintNode(doc, verifRulesNoDeprecated())
+		for _, e := range errs {
+			if e.Kind == "syntax-check" {
+				verifReach("embedding-rejected-by-parser")
+				return
+			}
+		}
+		n := verifCountMsg(errs, 0, "is not allowed here", site.node.Line)
+		undef := verifCountMsg(errs, 0, "undefined variable", site.node.Line)
+		if row != nil && verifIn(row.ctxs, base) {
+			verifReach("context-allowed")
+			verifCheckf(n == 0, "allowed-context-reported", site.path+": "+base)
+		} else {
+			verifReach("context-not-allowed")
+			verifCheckf(n >= 1 || (base == "jobs" && undef >= 1), "disallowed-context-not-reported", site.path+": "+base)
+		}
+		return
+	}
+	base := verifSpecialFuncs[verifChoose("function", len(verifSpecialFuncs))]
+	arg := ""
+	if base == "hashfiles" {
+		arg = "'x'"
+	}
+	site.node.Value = "${{ " + base + "(" + arg + ") }}"
+	errs := verifLintNode(doc, verifRulesNoDeprecated())
+	n := verifCountMsg(errs, 0, "calling function", site.node.Line)
+	if row != nil && verifIn(row.fns, base) {
+		verifReach("function-allowed")
+		verifCheckf(n == 0, "allowed-function-reported", site.path+": "+base)
+	} else {
+		verifReach("function-not-allowed")
+		verifCheckf(n >= 1, "disallowed-function-not-reported", site.path+": "+base)
+	}
+}
